@@ -54,11 +54,14 @@ def _unpack6bitascii(data):
     """Unpack the 6bit ascii encoded string."""
     string = ''
     for i in range(0, len(data), 3):
+        # a trailing group of 1 or 2 bytes holds 1 or 2 complete characters
         d = data[i:i+3]
         string += chr(0x20 + (d[0] & 0x3f))
-        string += chr(0x20 + (((d[0] & 0xc0) >> 6) | ((d[1] & 0xf) << 2)))
-        string += chr(0x20 + (((d[1] & 0xf0) >> 4) | ((d[2] & 0x3) << 4)))
-        string += chr(0x20 + ((d[2] & 0xfc) >> 2))
+        if len(d) > 1:
+            string += chr(0x20 + (((d[0] & 0xc0) >> 6) | ((d[1] & 0xf) << 2)))
+        if len(d) > 2:
+            string += chr(0x20 + (((d[1] & 0xf0) >> 4) | ((d[2] & 0x3) << 4)))
+            string += chr(0x20 + ((d[2] & 0xfc) >> 2))
     return string
 
 
@@ -95,7 +98,7 @@ class TypeLengthString(object):
         self.raw = data[offset+1:offset+1+self.length]
 
         if self.field_type == self.TYPE_BCD_PLUS:
-            self.string = self.raw.decode('bcd+')
+            self.string = bytes(bytearray(self.raw)).decode('bcd+')
         elif self.field_type == self.TYPE_6BIT_ASCII:
             self.string = _unpack6bitascii(self.raw)
         else:
